@@ -77,7 +77,7 @@ def hist_check(cid, what, rule_extra, min_q, min_t):
     return {
         'level': 'exploration',
         'rule': 'seeded transactional histories on a fresh single-table database (autocommit DML, sessions ending in commit / rollback / drop, '
-                'batches, failing statements' + rule_extra + ') mirrored into the reference model; after every step: statement outcome, the session\'s own view, '
+                'batches, failing statements, idle bystander sessions, quiet sessions without monitor reads, DELETEs in rolled-back transactions with tainted-row tracking' + rule_extra + ') mirrored into the reference model; after every step: statement outcome, the session\'s own view, '
                 'and a fresh reader\'s view of every table are compared with the model. Non-trivial = the history contains at least one transaction end, batch, '
                 'flush, vacuum or reopen; distinct = hash of the step list',
         'legs': {'quick': [{'flavour': 'prod', 'shards': 16}], 'thorough': [{'flavour': 'prod', 'shards': 16}]},
@@ -98,12 +98,12 @@ CHECKS['C07'] = hist_check('C07', 'Histories over a table with UNIQUE(k) and a N
 CHECKS['C07']['min_counters'] = {'quick': {'constraint_rejections_agreed': 500}, 'thorough': {'constraint_rejections_agreed': 5000}}
 CHECKS['C09'] = hist_check('C09', 'Histories with Database::flush() checkpoints and drop + Database::open(path, cfg) with four different open-time configurations at random points; after every reopen all '
                            'tables must equal the model carried across, rolled-back rows must stay invisible, and work continues on the reopened database.',
-                           ', flush and close/reopen with varying configuration', 1000, 20000)
-CHECKS['C09']['min_counters'] = {'quick': {'steps.reopen': 200}, 'thorough': {'steps.reopen': 3000}}
+                           ', flush and close/reopen with varying configuration, 300-2500 burnt read-only transactions at the start of 1/16 of the histories', 1000, 20000)
+CHECKS['C09']['min_counters'] = {'quick': {'steps.reopen': 200, 'burned_transactions': 100000}, 'thorough': {'steps.reopen': 3000}}
 CHECKS['C13'] = hist_check('C13', 'Histories with Database::vacuum() at random points (after committed and rolled-back inserts, committed deletes, failed batches): every table read by a fresh transaction '
                            'immediately after VACUUM, and after all later statements, must equal the model; the database must stay usable.',
-                           ' and VACUUM', 1000, 20000)
-CHECKS['C13']['min_counters'] = {'quick': {'steps.vacuum': 200}, 'thorough': {'steps.vacuum': 3000}}
+                           ' and VACUUM, quiet rolled-back sessions and quiet committing sessions with own-row updates (NULL flips) followed directly by VACUUM', 1000, 20000)
+CHECKS['C13']['min_counters'] = {'quick': {'steps.vacuum': 200, 'steps.rollback_then_vacuum': 100, 'steps.commit_then_vacuum': 100}, 'thorough': {'steps.vacuum': 3000}}
 
 CHECKS['C12'] = {
     'level': 'exploration',
@@ -124,7 +124,7 @@ CHECKS['C15'] = hist_check('C15', 'DDL histories over up to three tables in thre
                            'populated data), interleaved with DML on the same and on bystander tables and with reopen: after every step every existing table must equal the model, dropped / rolled-back / never-created names must not resolve, existing ones must.',
                            '; DDL steps as described in harness/src/c15.rs', 3000, 40000)
 CHECKS['C15']['rule'] = CHECKS['C15']['rule'].replace('fresh single-table database', 'fresh database with up to three tables')
-CHECKS['C15']['min_counters'] = {'quick': {'steps.create_table_in_txn': 300, 'steps.create_unique_index': 100, 'steps.name_probe': 1000}, 'thorough': {'steps.create_table_in_txn': 5000}}
+CHECKS['C15']['min_counters'] = {'quick': {'steps.create_table_in_txn': 300, 'steps.create_unique_index': 100, 'steps.name_probe': 1000, 'steps.drop_column_on_empty_table': 200}, 'thorough': {'steps.create_table_in_txn': 5000}}
 
 CHECKS['C04'] = {
     'level': 'exploration',
@@ -212,7 +212,8 @@ def e1_check(cid, text, min_q, min_t, counters_q):
     return {
         'level': 'fault_enumeration',
         'exhaustive': True,
-        'rule': 'seeded histories in 7 shapes (autocommit, committing sessions, rolled-back sessions, checkpoints, long log with large rows, 16-page cache, VACUUM) run once with the I/O tap recording every '
+        'rule': 'seeded histories in 12 shapes (autocommit, committing sessions, rolled-back sessions, checkpoints, sessions interleaved with autocommit statements and checkpoints, checkpoint between BEGIN and the first write, DDL bracketed by checkpoints, '
+                '6-page cache with page stealing and rollbacks, long log of small rows followed by a checkpoint; dirty: long log with large rows, 16-page cache with large rows, VACUUM) run once with the I/O tap recording every '
                 'file mutation (create / write / set_len on db file and log) in call order together with CALL/ACK markers; then EVERY prefix of the mutation stream is materialised as a crash image and opened with '
                 'Database::open; recovered rows (unique ids and payloads) are compared with the model state of exactly the transactions acknowledged before that point (or that state plus the single in-flight commit). '
                 'Exhaustive over the crash points of each generated history, sampled over histories. Non-trivial = every image opened after the CREATE TABLE was acknowledged; distinct = (history, prefix length).',
@@ -223,7 +224,7 @@ def e1_check(cid, text, min_q, min_t, counters_q):
                         'the tap sees every file mutation because all file I/O goes through DBFile', 'release-equivalent build, feature verif on'],
         'technique': 'crash-point enumeration over the recorded I/O stream (every prefix materialised and recovered by the real engine) with an acknowledged-transactions model as oracle',
         'level_text': text,
-        'level_note': 'Shapes long-log, small-cache-steal and with-vacuum have open findings and report under one coarse signature per class; the four clean shapes report exact phase/feature signatures, so any divergence there is new.',
+        'level_note': 'Shapes long-log, small-cache-steal and with-vacuum have open findings and report under one coarse signature per class; the nine clean shapes report exact signatures (crash phase, history features, error kind, age of a lost row relative to the last checkpoint), so any divergence there is new. Recovery that spins without progress is reported by the strict watchdog rule (hang:spinning).',
     }
 
 
